@@ -63,9 +63,23 @@ Definition sorted_texts (l : list (GS.value float)) : string :=
 Definition line_model_sorted (id : Z) (chain : list rstage) (q : json) : string :=
   line "M" id (show_res sorted_texts (GS.run_stages (stages_of chain) (of_json q))).
 
-Definition line_spec (id : Z) (chain : list rstage) (q : json) : string :=
-  line "S" id (match GS.spec_stages (stages_of chain) (of_json q) with
-               | None => "unspecified"
-               | Some l => "Ok " ++ sorted_texts l
-               end).
+(* output-side clause, for EVERY successful result whatever the input (also outside the domain of
+   GS.spec): when the last plugin of the chain is the grid search, no produced query has a grid
+   section (Props/C17.v output_has_no_grid_section).  [out_keys] = the distinct top-level key
+   lists of the queries the implementation produced (None if it returned an error). *)
+Definition ends_with_grid (chain : list rstage) : bool :=
+  match rev chain with G :: _ => true | _ => false end.
+Definition output_clause_broken (chain : list rstage) (out_keys : option (list (list string))) : bool :=
+  match out_keys with
+  | Some ks => ends_with_grid chain && existsb (existsb (String.eqb GS.grid_key)) ks
+  | None => false
+  end.
+
+Definition line_spec (id : Z) (chain : list rstage) (q : json) (out_keys : option (list (list string))) : string :=
+  line "S" id (if output_clause_broken chain out_keys
+               then "no generated query may have a grid_search section (the implementation produced one)"
+               else match GS.spec_stages (stages_of chain) (of_json q) with
+                    | None => "unspecified"
+                    | Some l => "Ok " ++ sorted_texts l
+                    end).
 End GSR.
